@@ -6272,6 +6272,12 @@ impl<'a, 'graph> Builder<'a, 'graph> {
             base_url: jsr_url_provider.package_url(&package_nv),
             inner: inner.info,
           };
+          // the manifest was loaded: report it before anything about the
+          // file can fail
+          loaded_package_via_https_url.replace(LoadedJsrPackageViaHttpsUrl {
+            nv: package_nv,
+            manifest_checksum_for_locker: inner.checksum_for_locker,
+          });
           if let Some(sub_path) = info.get_subpath(&load_specifier) {
             maybe_checksum = Some(LoaderChecksum::new(
               info
@@ -6288,10 +6294,6 @@ impl<'a, 'graph> Builder<'a, 'graph> {
             ));
           }
           maybe_version_info.replace(info);
-          loaded_package_via_https_url.replace(LoadedJsrPackageViaHttpsUrl {
-            nv: package_nv,
-            manifest_checksum_for_locker: inner.checksum_for_locker,
-          });
         }
 
         let load_options = LoadOptions {
